@@ -88,6 +88,8 @@ def run_check(prop, tier, seed):
         obs = io.get("obs")
         if isinstance(obs, list) and obs and obs[0] in ("harness-exception", "worker-crash"):
             harness_errors.append((c, obs))
+        elif io.get("oracle_error"):
+            harness_errors.append((c, ["oracle-exception", io["oracle_error"]]))
         label = mod.describe(c, mo, obs) if hasattr(mod, "describe") else "case"
         hist[label] += 1
         if not hasattr(mod, "nontrivial") or mod.nontrivial(c, mo, obs):
